@@ -91,7 +91,8 @@ def run(ctx):
             ctx.divergence(name, f"panic:{where}", {"panic": p, "config": sc})
         # ... and the node keeps voting, producing, repairing, finalizing (progress goal on the execution)
         consts = (f"  Crashed = {{{', '.join(map(str, crashed))}}}\n  SilentByz = {{}}\n"
-                  f"  StableFrom = {sc['gst'] + sc['chaos'] + 1000}\n  EndT = {sc['run_ms']}\n  Margin = 3500\n  RequireFast = FALSE\n")
+                  f"  StableFrom = {sc['gst'] + sc['chaos'] + 1000}\n  EndT = {sc['run_ms']}\n  Margin = 3500\n  RequireFast = FALSE\n"
+                  f"  Starved = {{{', '.join(map(str, summary.get('starved_slots', [])))}}}\n")
         NT.check(ctx, "nt_" + name, trace, stakes, [i for i in range(len(stakes)) if i not in byz], config=sc)
         rej = S.validate(ctx, "tv_" + name, trace, stakes, byz, module="Trace_Progress",
                          invs=S.TRACE_INVS + ["GoalAtEnd"], extra_consts=consts)
